@@ -45,10 +45,51 @@ OWNERS = [
 ]
 
 
-def owners(rel):
+_FUNCS = {}
+
+
+def func_at(rel, line):
+    """name of the innermost function enclosing a line"""
+    if rel not in _FUNCS:
+        spans = []
+        for n in ast.walk(ast.parse(open(os.path.join(SRC, rel)).read())):
+            if isinstance(n, (ast.FunctionDef, ast.AsyncFunctionDef)):
+                spans.append((n.lineno, n.end_lineno, n.name))
+        _FUNCS[rel] = spans
+    best = None
+    for a, b, name in _FUNCS[rel]:
+        if a <= line <= b and (best is None or a >= best[0]):
+            best = (a, name)
+    return best[1] if best else ""
+
+
+def owners(rel, line=0):
+    import re
+
+    f = func_at(rel, line) if line else ""
+    if rel == "units/unit_database.py":
+        if re.search("DoOperation|Match|ConsideringExponent|Sum|Subtract|Multiply|Divide", f):
+            return "C03 C04 C10 C13 C06".split()
+        if re.search("Convert|GetInfo|Legacy|FindUnitCase|Numpy", f):
+            return "C01 C02 C16 C15 C08".split()
+        if re.search("Add|Clear|Fill|Create|BaseUnit|__init__|Singleton", f):
+            return "C14 C15 C19 C16 C01".split()
+        if re.search("Check|Valid|Default|Category|Quantity", f):
+            return "C15 C12 C14 C19 C05".split()
+        return "C15 C14 C01 C02 C19".split()
+    if rel == "units/_quantity.py":
+        if re.search("ObtainQuantity|__new__|__init__|Create|MakeCopy|__reduce__|__eq__|__hash__|__ne__|Unknown", f):
+            return "C07 C19 C15 C16 C20".split()
+        if re.search("Convert", f):
+            return "C02 C01 C05 C16 C08".split()
+        if re.search("Str|Name|GetUnit|GetCategory|GetQuantityType|__repr__|__str__|Joining", f):
+            return "C20 C07 C03 C04".split()
+        if re.search("CheckValue|Valid", f):
+            return "C12 C15 C19".split()
+        return "C04 C03 C05 C07 C20".split()
     for prefix, lst in OWNERS:
         if rel.startswith(prefix):
-            return lst.split()
+            return lst.split()[:5]
     return []
 
 
@@ -352,7 +393,7 @@ def checks():
             ran, caught, sig = [], None, None
             try:
                 open(path, "w").write(mutated_source(m["file"], m["idx"]))
-                for c in owners(m["file"]):
+                for c in owners(m["file"], m["line"]):
                     env = dict(os.environ, VERIF_BARRIL_SRC=w + "/src", VERIF_SCRATCH_OUT=scratch, VERIF_PROCS=procs)
                     t0 = time.time()
                     try:
@@ -400,6 +441,28 @@ def report():
                 print("UNNOTICED #%d %s:%d [%s] %s" % (r["id"], r["file"], r["line"], r["kind"], r["source"]))
 
 
+def one():
+    """mutsweep.py one <mutant id> <Cxx> ... : the given checks against one mutant (own worktree, removed afterwards)"""
+    mid = int(sys.argv[2])
+    m = [json.loads(l) for l in open(OUT + "/mutants.jsonl")][mid]
+    assert m["id"] == mid
+    w = worktree(100 + os.getpid() % 1000)
+    path = os.path.join(w, "src/barril", m["file"])
+    open(path, "w").write(mutated_source(m["file"], m["idx"]))
+    scratch = w + ".scratch"
+    print("#%d %s:%d [%s] %s" % (mid, m["file"], m["line"], m["kind"], m["source"]))
+    try:
+        for c in sys.argv[3:]:
+            env = dict(os.environ, VERIF_BARRIL_SRC=w + "/src", VERIF_SCRATCH_OUT=scratch)
+            p = subprocess.run(["./check", c, "quick"], cwd="/verif", env=env, stdout=subprocess.PIPE, stderr=subprocess.STDOUT)
+            txt = p.stdout.decode(errors="replace")
+            sig = [l.strip() for l in txt.splitlines() if "signature:" in l][:2]
+            print("  %s rc=%d %s" % (c, p.returncode, " | ".join(sig)[:400]))
+    finally:
+        subprocess.call(["git", "-C", REPO, "worktree", "remove", "--force", w])
+        shutil.rmtree(scratch, ignore_errors=True)
+
+
 if __name__ == "__main__":
     cmd = sys.argv[1]
-    {"gen": gen, "tests": tests, "checks": checks, "report": report, "baseline": baseline}[cmd]()
+    {"gen": gen, "tests": tests, "checks": checks, "report": report, "baseline": baseline, "one": one}[cmd]()
